@@ -114,6 +114,43 @@ type Topic struct {
 	Parts    []*Partition
 	Internal bool
 	Err      int16
+	// Hist holds the partition-id sets this topic had before each change made
+	// during the run (NoteChange), with the instant the set stopped being live.
+	Hist []PartSnap
+}
+
+// PartSnap is a partition-id set that was live until Until.
+type PartSnap struct {
+	Until time.Duration
+	IDs   []int32
+}
+
+// NoteChange must be called immediately before the partition list of the
+// topic is changed: a client that read the metadata earlier may still act on
+// the previous set.
+func (t *Topic) NoteChange(now time.Duration) {
+	ids := make([]int32, 0, len(t.Parts))
+	for _, p := range t.Parts {
+		ids = append(ids, p.ID)
+	}
+	t.Hist = append(t.Hist, PartSnap{Until: now, IDs: ids})
+}
+
+// SetsSince returns the partition-id sets that were live at some instant in
+// [since, now]: the current one and every earlier one that was still live at
+// or after since.
+func (t *Topic) SetsSince(since time.Duration) [][]int32 {
+	cur := make([]int32, 0, len(t.Parts))
+	for _, p := range t.Parts {
+		cur = append(cur, p.ID)
+	}
+	out := [][]int32{cur}
+	for i := len(t.Hist) - 1; i >= 0; i-- {
+		if t.Hist[i].Until >= since {
+			out = append(out, t.Hist[i].IDs)
+		}
+	}
+	return out
 }
 
 // Broker is one simulated broker.
